@@ -111,7 +111,7 @@ impl SymTensor {
             shape
                 .iter()
                 .copied()
-                .map(|size| SymExpr::Value(size as i32))
+                .map(SymExpr::from_size)
                 .collect(),
         ))
     }
